@@ -102,9 +102,8 @@ def run_one(m, idx):
         lines[i] = new
     open(path, "w").write("\n".join(lines))
     res = {k: m[k] for k in ("kind", "file", "line", "old", "what")}
-    try:
-        py_compile.compile(path, doraise=True)
-    except Exception as e:  # noqa
+    # compile with the interpreter the library runs under (3.12 syntax), not the one running this script
+    if sh(f"/venv/bin/python -c \"import ast,sys; ast.parse(open(sys.argv[1]).read())\" {path}").returncode != 0:
         res["status"] = "does-not-compile"
         return res
     res["diff"] = sh(f"git -C {WT} diff -U0").stdout[-600:]
@@ -138,8 +137,9 @@ def main():
     os.makedirs(os.path.dirname(RES), exist_ok=True)
     os.makedirs(OUT, exist_ok=True)
     results = json.load(open(RES)) if os.path.exists(RES) else {"results": []}
-    done = {(r["file"], r["line"], r["what"]) for r in results["results"] if r["status"] != "harness-error"}
-    results["results"] = [r for r in results["results"] if r["status"] != "harness-error"]
+    redo = ("harness-error", "does-not-compile")
+    done = {(r["file"], r["line"], r["what"]) for r in results["results"] if r["status"] not in redo}
+    results["results"] = [r for r in results["results"] if r["status"] not in redo]
     head = sh(f"git -C {REPO} rev-parse --short HEAD").stdout.strip()
     n = 0
     for idx, m in enumerate(ms):
